@@ -5,7 +5,7 @@
 (* document and the operations the handlers were observed to perform.      *)
 (* Record: [id, input, doc, toks, endops, obs : seq of [variant, res, sink]] *)
 (***************************************************************************)
-EXTENDS Naturals, Integers, Sequences, TLC, Json, IOUtils, Edit
+EXTENDS Naturals, Integers, Sequences, TLC, Json, IOUtils, Edit, DocNs
 
 Rec == ndJsonDeserialize(IOEnv.TRACE)
 VARIABLES l, nbad
@@ -25,7 +25,7 @@ Verdict(r) == LET v == FirstBad(r, Expected(r), 1) IN
 
 TInit == l = 1 /\ nbad = 0
 TNext == /\ l <= Len(Rec)
-         /\ LET v == Verdict(Rec[l]) IN
+         /\ LET v == Verdict(WithNs(Rec[l])) IN
             IF v = "ok" THEN UNCHANGED nbad ELSE PrintT(<<"BAD", Rec[l].id, 0, v>>) /\ nbad' = nbad + 1
          /\ l' = l + 1
 TSpec == TInit /\ [][TNext]_vars
